@@ -43,7 +43,8 @@ TRUSTED = [
     "harness-local API stub (async_get -> NotFound, call_api records the POST) used for the reconcile_resource_function level",
 ]
 
-# level 3 with the coordinator's harness/cluster.py (not available when this was written)
+# level 3 (whole reconcile_resource_function -> POST body): uses the shared harness/cluster.py when it can be
+# imported (set by new_api()), the local MiniApi stub otherwise
 RF_AVAILABLE = False
 
 LAST_APPLIED = "koreo.dev/last-applied-configuration"   # documented constant, written by hand on purpose
@@ -208,6 +209,7 @@ class Real:
         from koreo.cel.functions import koreo_function_annotations
         from koreo.resource_function import reconcile as rfr
         from koreo.resource_function.prepare import prepare_resource_function
+        from koreo.resource_function.structure import ResourceFunction
         from koreo.resource_template.prepare import prepare_resource_template
         from koreo.resource_template.structure import ResourceTemplate
         from koreo.value_function.prepare import prepare_value_function
@@ -226,9 +228,18 @@ class Real:
     def reset(self):
         self.cache._reset_cache()
         self.registry._reset_registries()
+        self.run(self._settle())          # let cancelled re-prepare monitors finish
+
+    @staticmethod
+    async def _settle():
+        for _ in range(3):
+            await asyncio.sleep(0)
 
     def close(self):
-        self.loop.close()
+        try:
+            self.reset()
+        finally:
+            self.loop.close()
 
 
 _REAL = None
@@ -592,7 +603,93 @@ def run_rf(case):
         R.reset()
 
 
+def _pipeline(R, case, rf, inputs):
+    """template -> overlays -> create through the real module-level helpers, for the prepared function rf"""
+    rfr, cfg = R.rfr, rf.crud_config
+    forced = rfr._forced_overlay(resource_api=cfg.resource_api, name=case["name"], namespace=case["namespace"])
+    tmpl_arg = None if case["template"][0] == "inline" and case.get("template_none") else cfg.resource_template
+    res = {"template": None, "target": None, "create": None, "body": None}
+    try:
+        t = R.run(rfr._construct_resource_template(inputs=inputs, resource_template=tmpl_arg,
+                                                   forced_overlay=forced, full_resource_name="c12"))
+    except Exception as e:  # noqa: BLE001
+        res["template"] = res["target"] = res["create"] = ["Raised", type(e).__name__]
+        return res
+    res["template"] = outcome(t)
+    if res["template"][0] != "Done":
+        res["target"] = res["create"] = res["template"]
+        return res
+    tgt = t
+    if cfg.overlays:
+        try:
+            tgt = R.run(rfr._materialize_from_overlays(resource=t, overlay_steps=cfg.overlays, inputs=inputs,
+                                                       forced_overlay=forced, full_resource_name="c12"))
+        except Exception as e:  # noqa: BLE001
+            res["target"] = res["create"] = ["Raised", type(e).__name__]
+            return res
+    res["target"] = outcome(tgt)
+    if res["target"][0] != "Done":
+        res["create"] = res["target"]
+        return res
+    created = []
+
+    class FakeObject:
+        version, kind, namespaced = API_VERSION, kind_of(case), case["namespace"] is not None
+
+        def __init__(self, api, resource, namespace):
+            created.append(resource)
+
+        async def create(self):
+            return None
+    owner = (case["namespace"], {"apiVersion": "v1", "kind": "Owner", "name": "o", "uid": "uid-1",
+                                 "blockOwnerDeletion": True, "controller": False})
+    # observe the materialised view exactly where koreo hands it to the API layer
+    views, orig = [], rfr._prepare_for_api
+
+    def spy(obj):
+        views.append(copy.deepcopy(obj))
+        return orig(obj)
+    rfr._prepare_for_api = spy
+    try:
+        r = R.run(rfr._create_api_resource(api=None, resource_api=FakeObject, namespace=case["namespace"],
+                                           create=cfg.create, owned_resource=case.get("owned", False), owner=owner,
+                                           inputs=inputs, resource_view=tgt, forced_overlay=forced,
+                                           full_resource_name="c12"))
+        res["create"] = outcome(r)
+    except Exception as e:  # noqa: BLE001
+        res["create"] = ["Raised", type(e).__name__]
+    finally:
+        rfr._prepare_for_api = orig
+    if views:
+        view = plain(views[0])
+        if case.get("owned", False) and isinstance(view.get("metadata"), dict):
+            view["metadata"].pop("ownerReferences", None)      # C08's subject, not part of the merge
+        res["create"] = ["Done", view]
+    if created:
+        res["body"] = plain(created[0])
+        la = last_applied(res["body"])
+        if case.get("owned", False) and isinstance(la, dict) and isinstance(la.get("metadata"), dict):
+            la["metadata"].pop("ownerReferences", None)
+        res["recorded"] = la
+    return res
+
+
+def _function_view(f):
+    cfg = f.crud_config
+    return ([(type(o).__name__, runner_view(o.skip_if),
+              overlay_view(o.overlay) if hasattr(o.overlay, "value_index") else vf_view(o.overlay),
+              runner_view(getattr(o, "inputs", None))) for o in (cfg.overlays or [])],
+            overlay_view(cfg.create.overlay),
+            runner_view(getattr(cfg.resource_template, "template", None)),
+            runner_view(getattr(cfg.resource_template, "name", None)))
+
+
+RF_NAME = "c12-rf"
+
+
 def _run_rf(R, case):
+    """Everything goes through the real cache: ValueFunctions, ResourceTemplates and the ResourceFunction
+    are prepared with cache.prepare_and_cache, so that the flow part can have koreo re-prepare the function."""
     vfs = {}
     for i, s in enumerate(case["steps"]):
         if s["kind"] == "fn":
@@ -608,119 +705,102 @@ def _run_rf(R, case):
         if not isinstance(t, R.ResourceTemplate):
             return {"prepared": ["template", outcome(t)]}
         templates[name] = t
-    out = R.run(R.prepare_resource_function("c12-rf", copy.deepcopy(rf_spec(case))))
-    if not isinstance(out, tuple):
-        return {"prepared": ["rf", outcome(out)]}
-    rf = out[0]
+    spec_passed = rf_spec(case)
+    spec_snap = copy.deepcopy(spec_passed)
+    rf = R.run(R.cache.prepare_and_cache(R.ResourceFunction, R.prepare_resource_function,
+                                         {"name": RF_NAME, "resourceVersion": "1"}, spec_passed))
+    if not isinstance(rf, R.ResourceFunction):
+        return {"prepared": ["rf", outcome(rf)]}
     cfg = rf.crud_config
     if case["steps"] and not isinstance(cfg.overlays, list):
         return {"prepared": ["overlays", outcome(cfg.overlays)]}
-    rfr = R.rfr
 
     def fresh_inputs():
         return act(R, case["env"])
 
-    def pipeline(inputs, mon=None):
-        forced = rfr._forced_overlay(resource_api=cfg.resource_api, name=case["name"], namespace=case["namespace"])
-        tmpl_arg = None if case["template"][0] == "inline" and case.get("template_none") else cfg.resource_template
-        res = {"template": None, "target": None, "create": None, "body": None}
-        try:
-            t = R.run(rfr._construct_resource_template(inputs=inputs, resource_template=tmpl_arg,
-                                                       forced_overlay=forced, full_resource_name="c12"))
-        except Exception as e:  # noqa: BLE001
-            res["template"] = res["target"] = res["create"] = ["Raised", type(e).__name__]
-            return res
-        res["template"] = outcome(t)
-        if res["template"][0] != "Done":
-            res["target"] = res["create"] = res["template"]
-            return res
-        tgt = t
-        if cfg.overlays:
-            try:
-                tgt = R.run(rfr._materialize_from_overlays(resource=t, overlay_steps=cfg.overlays, inputs=inputs,
-                                                           forced_overlay=forced, full_resource_name="c12"))
-            except Exception as e:  # noqa: BLE001
-                res["target"] = res["create"] = ["Raised", type(e).__name__]
-                return res
-        res["target"] = outcome(tgt)
-        if res["target"][0] != "Done":
-            res["create"] = res["target"]
-            return res
-        created = []
-
-        class FakeObject:
-            version, kind, namespaced = API_VERSION, kind_of(case), case["namespace"] is not None
-
-            def __init__(self, api, resource, namespace):
-                created.append(resource)
-
-            async def create(self):
-                return None
-        owner = (case["namespace"], {"apiVersion": "v1", "kind": "Owner", "name": "o", "uid": "uid-1",
-                                     "blockOwnerDeletion": True, "controller": False})
-        # observe the materialised view exactly where koreo hands it to the API layer
-        views, orig = [], rfr._prepare_for_api
-
-        def spy(obj):
-            views.append(copy.deepcopy(obj))
-            return orig(obj)
-        rfr._prepare_for_api = spy
-        try:
-            r = R.run(rfr._create_api_resource(api=None, resource_api=FakeObject, namespace=case["namespace"],
-                                               create=cfg.create, owned_resource=case.get("owned", False), owner=owner,
-                                               inputs=inputs, resource_view=tgt, forced_overlay=forced,
-                                               full_resource_name="c12"))
-            res["create"] = outcome(r)
-        except Exception as e:  # noqa: BLE001
-            res["create"] = ["Raised", type(e).__name__]
-        finally:
-            rfr._prepare_for_api = orig
-        if views:
-            view = plain(views[0])
-            if case.get("owned", False) and isinstance(view.get("metadata"), dict):
-                view["metadata"].pop("ownerReferences", None)      # C08's subject, not part of the merge
-            res["create"] = ["Done", view]
-        if created:
-            res["body"] = plain(created[0])
-            la = last_applied(res["body"])
-            if case.get("owned", False) and isinstance(la, dict) and isinstance(la.get("metadata"), dict):
-                la["metadata"].pop("ownerReferences", None)
-            res["recorded"] = la
-        return res
+    def spec_changes():
+        out = []
+        if spec_passed != spec_snap:
+            out.append("the spec dict handed to prepare_and_cache")
+        entry = R.cache.get_resource_system_data_from_cache(resource_class=R.ResourceFunction, cache_key=RF_NAME)
+        if entry is None or entry.spec != spec_snap:
+            out.append("the function spec held by the cache")
+        return out
 
     inputs = fresh_inputs()
     mon = Monitor()
     mon.watch("inputs", inputs)
-    mon.watch("prepared function", rf, lambda f: (
-        [(type(o).__name__, runner_view(o.skip_if),
-          overlay_view(o.overlay) if hasattr(o.overlay, "value_index") else vf_view(o.overlay),
-          runner_view(getattr(o, "inputs", None))) for o in (cfg.overlays or [])],
-        overlay_view(cfg.create.overlay),
-        runner_view(getattr(cfg.resource_template, "template", None)), runner_view(getattr(cfg.resource_template, "name", None))))
+    mon.watch("prepared function", rf, _function_view)
     for name, t in templates.items():
         mon.watch(f"cached ResourceTemplate {name}", t, lambda x: x.template)
     for i, vf in vfs.items():
         mon.watch(f"cached ValueFunction {i}", vf, vf_view)
-    first = pipeline(inputs)
+    first = _pipeline(R, case, rf, inputs)
     changed = mon.changed()
-    second = pipeline(fresh_inputs())
-    got = {"prepared": "ok", "obs": first, "again": second, "changed": changed}
+    second = _pipeline(R, case, rf, fresh_inputs())
+    got = {"prepared": "ok", "obs": first, "again": second, "changed": changed + spec_changes()}
 
-    # level 3: the whole reconcile_resource_function against the API stub -> POST body
+    # flow: a referenced ValueFunction is offered again (new resourceVersion, same content); koreo re-prepares
+    # the ResourceFunction from the spec in its cache; evaluating again with equal inputs must give an equal result
+    if vfs:
+        async def reoffer():
+            before = R.cache.get_resource_from_cache(resource_class=R.ResourceFunction, cache_key=RF_NAME)
+            for i, s in enumerate(case["steps"]):
+                if s["kind"] == "fn":
+                    await R.cache.prepare_and_cache(R.ValueFunction, R.prepare_value_function,
+                                                    {"name": f"c12-vf-{i}", "resourceVersion": "2"}, vf_spec(s["f"]))
+            for _ in range(60):
+                await asyncio.sleep(0)
+                after = R.cache.get_resource_from_cache(resource_class=R.ResourceFunction, cache_key=RF_NAME)
+                if after is not before:
+                    for _ in range(12):          # let further queued re-prepares settle
+                        await asyncio.sleep(0)
+                    return True
+            return False
+        try:
+            reprepared = R.run(reoffer())
+        except Exception as e:  # noqa: BLE001
+            reprepared = "Raised:" + type(e).__name__
+        flow = {"reprepared": reprepared, "spec_changed": spec_changes()}
+        rf2 = R.cache.get_resource_from_cache(resource_class=R.ResourceFunction, cache_key=RF_NAME)
+        if reprepared is True and isinstance(rf2, R.ResourceFunction):
+            flow["after"] = _pipeline(R, case, rf2, fresh_inputs())
+        elif reprepared is True:
+            flow["after"] = {"function": outcome(rf2)}
+        got["flow"] = flow
+
+    # level 3: the whole reconcile_resource_function against an in-memory API -> POST body
     if case.get("template_none"):
         return got          # the helper was driven with resource_template=None; reconcile would use the real one
-    api = MiniApi()
+    api = new_api()
     try:
         r = R.run(R.rfr.reconcile_resource_function(api=api, location="c12", function=rf,
                                                     owner=(case["namespace"], {"uid": "uid-1"}),
                                                     inputs=R.cel(case["env"]["inputs"])))
-        posts = [b for m, b in api.calls if m == "POST"]
+        posts = api_posts(api)
         got["reconcile"] = {"outcome": outcome(r.outcome)[0], "posts": len(posts),
-                            "target": last_applied(posts[0]) if posts else None,
-                            "mutating": [m for m, _ in api.calls]}
+                            "target": last_applied(posts[0]) if posts else None}
     except Exception as e:  # noqa: BLE001
-        got["reconcile"] = {"outcome": "Raised:" + type(e).__name__, "posts": 0, "target": None, "mutating": []}
+        got["reconcile"] = {"outcome": "Raised:" + type(e).__name__, "posts": 0, "target": None}
     return got
+
+
+def new_api():
+    """harness/cluster.py (shared in-memory API double) when available, else the local stub"""
+    global RF_AVAILABLE
+    try:
+        from cluster import Cluster
+        RF_AVAILABLE = True
+        return Cluster()
+    except Exception:  # noqa: BLE001
+        RF_AVAILABLE = False
+        return MiniApi()
+
+
+def api_posts(api):
+    if isinstance(api, MiniApi):
+        return [b for m, b in api.calls if m == "POST"]
+    return [c.get("body") for c in api.calls if c["method"] == "POST"]
 
 
 def ref_rf(case, forced_first=True, forced_last=True, forced_create=True):
@@ -770,6 +850,15 @@ def oracle_rf(case, got):
                 "the pipeline modified " + ", ".join(got["changed"]), None)
     if got["obs"] != got["again"]:
         return ("purity: materialising twice gives different results", "second evaluation with equal inputs differs", got["obs"])
+    flow = got.get("flow")
+    if flow is not None:
+        if flow["spec_changed"]:
+            return ("purity: the function itself was modified (" + "/".join(flow["spec_changed"]) + ")",
+                    "after a referenced ValueFunction was offered again: modified " + ", ".join(flow["spec_changed"]), None)
+        if "after" in flow and flow["after"] != got["obs"]:
+            return ("purity: equal inputs give a different target after koreo re-prepared the function from its cached spec",
+                    "a referenced ValueFunction was offered again with unchanged content, the ResourceFunction was "
+                    "re-prepared from the cache, and the same inputs now materialise a different target", got["obs"])
     wants = []
     for flags in itertools.product((True, False), repeat=3):
         try:
@@ -1108,6 +1197,20 @@ def g_rf_case(rng):
     return case
 
 
+def g_flow_case(rng):
+    """ResourceFunction with at least one overlayRef (so that koreo re-prepares it when that ValueFunction is
+    offered again) and a skipIf on every overlay (true / false / computed)"""
+    for _ in range(200):
+        case = g_rf_case(rng)
+        if any(s["kind"] == "fn" for s in case["steps"]):
+            break
+    for s in case["steps"]:
+        if s["skip"] is None or (s["skip"][0] == "c" and not isinstance(s["skip"][1], bool)):
+            s["skip"] = rng.choice([["c", True], ["c", True], ["c", False], ["p", "inputs", ["flag"]]])
+    case["flow"] = True
+    return case
+
+
 def iter_paths(f):
     def walk(d):
         if d[0] == "p":
@@ -1167,6 +1270,8 @@ def gen_cases(ctx: Ctx):
         yield g_vf_case(ctx.rng)
     for _ in range(800 if q else 10000):
         yield g_rf_case(ctx.rng)
+    for _ in range(200 if q else 2500):
+        yield g_flow_case(ctx.rng)
 
 
 def nontrivial(case) -> bool:
@@ -1290,6 +1395,8 @@ def run(ctx: Ctx):
                 ctx.count(f"rf:steps:{len(case['steps'])}")
                 ctx.count(f"rf:template:{case['template'][0]}")
                 ctx.count(f"rf:target:{got['obs']['target'][0]}")
+                if "flow" in got:
+                    ctx.count(f"rf:flow:reprepared={got['flow']['reprepared']}")
                 if "reconcile" in got:
                     ctx.count(f"rf:reconcile:{got['reconcile']['outcome']}:posts={got['reconcile']['posts']}")
                 for s in case["steps"]:
